@@ -377,7 +377,11 @@ def solver_cases(rep, rng, n):
     import pysmt.logics as L
     import pysmt.typing as T
     BruteSolver, _ = classes()
-    fails = ['assert_non_boolean', 'get_value_function', 'assert_foreign']
+    fails = ['assert_non_boolean', 'get_value_function', 'assert_foreign',
+             'opt_min_bool_term', 'opt_lexi_with_bool', 'opt_bad_strategy',
+             'opt_boxed_with_bool', 'opt_pareto_with_bool',
+             'opt_lexi_maxsmt', 'opt_min_string_term']
+    from .c18 import opt_classes
     for j in range(n):
         if rep.out_of_time():
             break
@@ -398,13 +402,25 @@ def solver_cases(rep, rng, n):
             opts = {}
             if kind == 'solve_unknown' and which == 'A':
                 pass
-            solver = BruteSolver(env, L.QF_BOOL)
+            if kind.startswith('opt_'):
+                # an optimizer: pySMT's mix-in over the brute-force solver
+                cls = opt_classes()[['sua', 'incremental'][(j // len(fails))
+                                                           % 2]]
+                solver = cls(env, L.QF_LIA)
+                ox = mgr.Symbol('c15_ox', T.INT)
+                solver.add_assertion(mgr.And(mgr.LE(mgr.Int(0), ox),
+                                             mgr.LE(ox, mgr.Int(3))))
+            else:
+                solver = BruteSolver(env, L.QF_BOOL)
             depth = [0]
             k = [0]
+            just_solved = [False]
 
             def do(op):
                 k[0] += 1
                 a, b = syms[2 * k[0] % 40], syms[(2 * k[0] + 1) % 40]
+                if op != 'get_value' and op != 'solve':
+                    just_solved[0] = False
                 if op == 'assert':
                     solver.add_assertion(mgr.Or(a, b))
                 elif op == 'push':
@@ -415,15 +431,23 @@ def solver_cases(rep, rng, n):
                         solver.pop()
                         depth[0] -= 1
                 elif op == 'solve':
-                    return solver.solve()
+                    r = solver.solve()
+                    just_solved[0] = bool(r)
+                    return r
                 elif op == 'is_sat':
                     return solver.is_sat(mgr.And(a, mgr.Not(b)))
                 elif op == 'get_value':
-                    if solver.last_result is True and \
-                            solver.last_command == 'solve':
+                    # (legal only right after a solve() that said sat; the
+                    # harness tracks this itself)
+                    if just_solved[0]:
+                        just_solved[0] = False
                         return str(solver.get_value(a))
                     return None
                 elif op == 'last':
+                    if kind.startswith('opt_'):
+                        # a failing optimisation has made solver calls of
+                        # its own: these attributes legitimately differ
+                        return None
                     return (solver.last_command, solver.last_result)
                 elif op == 'assertions':
                     return [str(x) for x in solver.assertions]
@@ -485,6 +509,30 @@ def _solver_fail(kind, solver, env, mgr):
         other = Environment()
         g = other.formula_manager.Symbol('c15_foreign')
         return outcome(lambda: solver.is_sat(g))
+    if kind.startswith('opt_'):
+        from pysmt.optimization.goal import MinimizationGoal, MaxSMTGoal
+        ox = mgr.Symbol('c15_ox', T.INT)
+        ob = mgr.Symbol('c15_ob')
+        if kind == 'opt_min_bool_term':
+            return outcome(lambda: solver.optimize(MinimizationGoal(ob)))
+        if kind == 'opt_min_string_term':
+            return outcome(lambda: solver.optimize(MinimizationGoal(
+                mgr.Symbol('c15_os', T.STRING))))
+        if kind == 'opt_lexi_with_bool':
+            return outcome(lambda: solver.lexicographic_optimize(
+                [MinimizationGoal(ox), MinimizationGoal(ob)]))
+        if kind == 'opt_bad_strategy':
+            return outcome(lambda: solver.optimize(MinimizationGoal(ox),
+                                                   strategy='quadratic'))
+        if kind == 'opt_boxed_with_bool':
+            return outcome(lambda: solver.boxed_optimize(
+                [MinimizationGoal(ox), MinimizationGoal(ob)]))
+        if kind == 'opt_pareto_with_bool':
+            return outcome(lambda: list(solver.pareto_optimize(
+                [MinimizationGoal(ox), MinimizationGoal(ob)])))
+        if kind == 'opt_lexi_maxsmt':
+            return outcome(lambda: solver.lexicographic_optimize(
+                [MinimizationGoal(ox), MaxSMTGoal()]))
     if kind == 'solve_unknown':
         from pysmt.exceptions import SolverReturnedUnknownResultError
         solver.options.unknown_on = solver.n_solve_calls + 1
@@ -499,9 +547,11 @@ def _solver_fail(kind, solver, env, mgr):
 
 
 def run(rep):
+    rep.share(0.35)
     if not rep.only or rep.only == 'solver':
         solver_cases(rep, random.Random(rep.seed * 31 + rep.shard),
                      150 if rep.tier == 'quick' else 20000)
+    rep.share(1.0)
     ck = Checker(rep)
     n = 400 if rep.tier == 'quick' else 30000
     j = 0
